@@ -21,7 +21,7 @@ import typing
 from sim.loop import HarnessError
 from worlds import tx_island
 
-STRATA = ('core', 'nofault', 'exotic')
+STRATA = ('core', 'nofault', 'exotic', 'deep')
 NAMES = ('a', 'b')
 MODS = ('m1', 'm2', 'm3')
 CFGS = ('c1', 'c2')
@@ -256,6 +256,13 @@ class World:
             'pscript': t.pick([0, 10], 'pscript') if faulty else 0,
             'exotic': st == 'exotic',
         }
+        if st == 'deep':
+            # long histories that stay inside one transaction: savepoint / DDL / rollback-to heavy,
+            # always with compile-time rejections (a defect that needs ~10 specific steps in one
+            # block is out of reach of the uniform mix)
+            cfg.update(nsteps=10 + t.draw(30, 'nsteps_deep'), pbefail=t.pick([0, 10], 'pbefail_deep'),
+                       preject=t.pick([10, 30], 'preject_deep'), pscript=0)
+        self.deep = st == 'deep'
         self.cfg = cfg
 
         U0 = isl['FlatSchema']('U0', modules=('default', 'std'))
@@ -301,6 +308,13 @@ class World:
             w = [3, 1, 2, 1, 5, 3, 5, 4, 2, 1, 2, 2]
         else:
             w = [2, 7, 1, 1, 1, 1, 1, 2, 1, 1, 1, 1]
+        if getattr(self, 'deep', False):
+            if m.in_tx and m.err:
+                w = [1, 0, 1, 1, 1, 1, 12, 1, 1, 0, 1, 0]
+            elif m.in_tx:
+                w = [3, 1, 1, 1, 6, 2, 7, 6, 2, 1, 2, 1]
+            else:
+                w = [1, 14, 1, 1, 1, 1, 1, 1, 1, 1, 1, 1]
         if not self.global_ddl:
             w[-1] = 0
         kind = ('query', 'start', 'commit', 'rollback', 'declare', 'release', 'rollback_to',
